@@ -126,6 +126,16 @@ def cells(thorough):
                 out.append(dict(t='table', kind=kind, binding=binding, sig='none', want=None, dest='own', ii=0, version=v, damage='none', slack=None))
             for slack, ii in itertools.product((0, 60), (DAY + 5, DAY + 65, -(DAY + 5), -(DAY + 65))):
                 out.append(dict(t='table', kind=kind, binding=binding, sig='none', want=None, dest='absent', ii=ii, version='2.0', damage='none', slack=slack))
+    # IssueInstant written in another zone or with a fraction: the *instant* counts (a receiver may refuse the spelling,
+    # it must not read the digits as UTC)
+    H = 3600
+    for kind, (_fn, svc, bindings) in KINDS.items():
+        for binding in bindings:
+            for style, ii in (('+13:00', -36 * H), ('+13:00', -(DAY + 5)), ('+13:00', 0), ('+14:00', -37 * H), ('-11:00', 34 * H),
+                              ('-11:00', DAY + 5), ('-11:00', 0), ('-12:00', 35 * H), ('.999Z', DAY + 5), ('.999Z', -(DAY + 5)),
+                              ('+01:00', DAY + 5), ('+01:00', -(DAY + 1800))):
+                out.append(dict(t='table', kind=kind, binding=binding, sig='none', want=None, dest='own', ii=ii, version='2.0',
+                                damage='none', slack=None, style=style))
     # schema damage below mandatory children
     for kind, dmg in (('AttributeQuery', 'subject-confirmation-without-method'), ('AuthnQuery', 'subject-confirmation-without-method'),
                       ('AuthzDecisionQuery', 'subject-confirmation-without-method'), ('LogoutRequest', 'name-id-without-text'),
@@ -167,7 +177,7 @@ def build(c):
     kind, binding = c['kind'], c['binding']
     key = {'none': None, 'valid': 'spX', 'invalid': 'spX', 'non-metadata-key': 'mallory', 'other-sp-key': 'spY'}[c['sig']]
     xml = forge.request(env.BASE, kind=kind, dest=dest_value(c['dest'], kind, binding), version=c['version'], issue_offset=c['ii'], sign=key,
-                        et_prefixes=(binding == SOAP))
+                        et_prefixes=(binding == SOAP), style=c.get('style', 'Z'))
     if c['sig'] == 'invalid':
         xml = xml.replace('Version="2.0"', 'Version="2.0" Consent="urn:x"', 1)
     return damage(xml, kind, c['damage'])
@@ -238,6 +248,45 @@ def evaluate(c):
             except xmlsec.Fail:
                 why.append('unparseable-request-accepted')
         return {'accept': r['accept'], 'exc': r.get('exc'), 'why': why}
+    if c['t'] == 'seq':
+        # one fresh receiver, several signed requests in turn: each verdict must depend on that request's issuer and key only
+        _c.pop((c['want'], None), None)
+        srv = server(c['want'])
+        kind, binding = c['kind'], c['binding']
+        why = []
+        trace = []
+        for n, (iss, key) in enumerate(c['steps']):
+            xml = forge.request(env.BASE, kind=kind, rid='Q%d' % n, issuer={'X': world.SP_X, 'Y': world.SP_Y}[iss],
+                                dest=EP[KINDS[kind][1]][binding], sign=key, et_prefixes=(binding == SOAP))
+            r = parse(srv, kind, encode(xml, binding), binding)
+            genuine = key == {'X': 'spX', 'Y': 'spY'}[iss]
+            trace.append([iss, key, r['accept'], r.get('exc')])
+            if r['accept'] and not genuine:
+                why.append('request-signed-with-another-key-accepted-at-step-%d' % n)
+            if not r['accept'] and genuine:
+                why.append('genuine-signed-request-rejected-at-step-%d:%s' % (n, r.get('exc')))
+        _c.pop((c['want'], None), None)
+        return {'accept': all(t[2] for t in trace), 'exc': None, 'why': why, 'trace': trace}
+    if c['t'] == 'xsw':
+        from vp.checks import c01
+        srv = server(c['want'])
+        kind, binding = c['kind'], c['binding']
+        base = signed_start(kind, binding)
+        why = []
+        n = acc = 0
+        for coords, x in c01.grammar(base, 'Request', only=c['block']):
+            n += 1
+            r = parse(srv, kind, encode(x, binding), binding)
+            if not r['accept']:
+                continue
+            acc += 1
+            d = xmlsec.parse_doc(x)
+            root = d.documentElement
+            has = bool(xmlsec.children(root, xmlsec.DS, 'Signature'))
+            ok, reason = oracle.strict_signature(d, root, ['spX']) if has else (False, 'no-signature-child')
+            if (has or c['want']) and not ok:
+                why.append('wrapped-request-accepted:%s:%s' % (reason, {k: v for k, v in coords.items() if k not in ('kind', 'target')}))
+        return {'accept': bool(acc), 'exc': None, 'why': why[:20], 'n': n, 'n_acc': acc}
     if c['t'] == 'trunc':
         srv = server(None)
         kind, binding = c['kind'], c['binding']
@@ -294,6 +343,28 @@ def edit_cells(thorough):
     return out
 
 
+def seq_cells(thorough):
+    out = []
+    ops = [('X', 'spX'), ('Y', 'spY'), ('X', 'spY'), ('Y', 'spX'), ('X', 'mallory')]
+    for kind, binding in (('AuthnRequest', POST), ('LogoutRequest', SOAP)) + ((('AttributeQuery', SOAP), ('LogoutRequest', POST)) if thorough else ()):
+        for want in ((None, True) if kind == 'AuthnRequest' else (None,)):
+            for n in (2, 3) if thorough else (2,):
+                for steps in itertools.product(ops, repeat=n):
+                    out.append(dict(t='seq', kind=kind, binding=binding, want=want, steps=[list(x) for x in steps]))
+    return out
+
+
+def xsw_cells(thorough):
+    from vp.checks import c01
+    out = []
+    for kind, binding, wants in (('AuthnRequest', POST, (None, True)), ('LogoutRequest', SOAP, (None,)), ('AttributeQuery', SOAP, (None,))):
+        for want in wants:
+            for tid in ('fresh', 'same'):
+                for oslot in c01.O_SLOTS_Q:
+                    out.append(dict(t='xsw', kind=kind, binding=binding, want=want, block=[tid, oslot]))
+    return out
+
+
 def trunc_cells(thorough):
     out = []
     for kind, (_fn, svc, bindings) in KINDS.items():
@@ -310,10 +381,10 @@ def trunc_cells(thorough):
 
 def run(ctx):
     TMP[0] = ctx.tmp
-    cs = cells(ctx.thorough) + edit_cells(ctx.thorough) + trunc_cells(ctx.thorough)
+    cs = cells(ctx.thorough) + edit_cells(ctx.thorough) + seq_cells(ctx.thorough) + xsw_cells(ctx.thorough) + trunc_cells(ctx.thorough)
     res = ctx.pmap(evaluate, cs, chunksize=16)
     ctx.recheck(evaluate, cs, res, n=24)
-    n_table = n_edit = n_trunc = acc = 0
+    n_table = n_edit = n_trunc = acc = n_seq = n_xsw = 0
     nontriv = set()
     hist = {}
     valid_rejected = 0
@@ -330,6 +401,12 @@ def run(ctx):
         elif c['t'] == 'edit':
             n_edit += 1
             nontriv.add(('edit', c['kind'], repr(c['ops']), c.get('primed', False)))
+        elif c['t'] == 'seq':
+            n_seq += 1
+            nontriv.add(('seq', c['kind'], c['want'], repr(c['steps'])))
+        elif c['t'] == 'xsw':
+            n_xsw += r.get('n', 0)
+            nontriv.add(('xsw', c['kind'], c['want'], repr(c['block'])))
         else:
             n_trunc += r.get('n', 0)
             nontriv.add(('trunc', c['kind'], c['binding'], c['cuts'][0]))
@@ -350,11 +427,12 @@ def run(ctx):
     return {
         'level': 'model_checking',
         'coverage': {
-            'states': n_edit + n_table, 'transitions': n_edit + n_table + n_trunc, 'traces_validated_against_impl': n_edit + n_table + n_trunc,
+            'states': n_edit + n_table + n_seq + n_xsw, 'transitions': n_edit + n_table + n_trunc + n_seq + n_xsw,
+            'traces_validated_against_impl': n_edit + n_table + n_trunc + n_seq + n_xsw, 'sequence_cells': n_seq, 'wrap_grammar_documents': n_xsw,
             'samples': [{'cell': {k: str(v)[:80] for k, v in cs[i].items()}, 'result': res[i]} for i in (0, len(cs) // 2)],
             'exhaustive': True, 'table_cells': n_table, 'edit_states': n_edit, 'encoding_damage_cases': n_trunc, 'accepted': acc,
             'valid_requests_rejected_noted': valid_rejected, 'distinct_outcomes': len(hist), 'outcome_histogram': hist,
-            'rule': '(a) %s product: 8 request types x their bindings x signature state (none, valid, invalid, non-metadata key, other SP\'s key) x want_authn_requests_signed (absent, False, True) x Destination (absent, own, own endpoint of another service / binding, foreign) x IssueInstant offset (0, +-(1 day -5 s), +-(1 day +5 s), +-400 d; with allowance 0 and 60) x Version; schema damage below mandatory children; (b) every depth-1 tree edit%s of validly signed AuthnRequest/LogoutRequest/AttributeQuery (C01 alphabet), text/attr/delete edits also on a receiver that has just accepted the genuine request; (c) %s truncation of the transport encoding + garbled encodings; all through the real Server.parse_* entry points' % ('complete' if ctx.thorough else 'pairwise-around-a-base-cell (complete for AuthnRequest/POST pairs)', ' + depth-2 signature relocation family' if ctx.thorough else '', 'every' if ctx.thorough else 'every 7th + the last 40'),
+            'rule': '(a) %s product: 8 request types x their bindings x signature state (none, valid, invalid, non-metadata key, other SP\'s key) x want_authn_requests_signed (absent, False, True) x Destination (absent, own, own endpoint of another service / binding, foreign) x IssueInstant offset (0, +-(1 day -5 s), +-(1 day +5 s), +-400 d; with allowance 0 and 60) x Version; schema damage below mandatory children; (b) every depth-1 tree edit%s of validly signed AuthnRequest/LogoutRequest/AttributeQuery (C01 alphabet), text/attr/delete edits also on a receiver that has just accepted the genuine request; (b2) the complete signature-wrapping grammar of C01 around a validly signed AuthnRequest (signed requests wanted / not wanted), LogoutRequest and AttributeQuery: modified twin with fresh or same ID x place of the genuine request (absent, Extensions, Issuer, Signature/Object, last child) x genuine keeps its signature x up to two signature copies in 6 places each referencing the genuine or the twin; (b3) every sequence of 2 (thorough: 3) signed requests from two SPs, each signed with its own, the key of the other SP or a foreign key, on one fresh receiver; IssueInstant also written in other zones (+13:00, +14:00, -11:00, -12:00, +01:00) and with fractions; (c) %s truncation of the transport encoding + garbled encodings; all through the real Server.parse_* entry points' % ('complete' if ctx.thorough else 'pairwise-around-a-base-cell (complete for AuthnRequest/POST pairs)', ' + depth-2 signature relocation family' if ctx.thorough else '', 'every' if ctx.thorough else 'every 7th + the last 40'),
         },
         'assumptions': ['every explored (service, binding) has a configured endpoint (the destination test is skipped otherwise and the statement does not cover that case)',
                         'one-directional oracle; xmlsec1 model at the seam'],
